@@ -61,3 +61,13 @@ package tikv
 //@   loop 1 invariant holds: resolvedLocation != nil && inRange(resolvedLocation.StartKey, resolvedLocation.EndKey, locks[0].Key) && inRange(resolvedLocation.StartKey, resolvedLocation.EndKey, locks[len(locks)-1].Key)
 //@   at call(BatchResolveLocks) assert where: arg_locks == locks && arg_loc == resolvedLocation.Region
 //@   ensures holds: err == nil && resolvedLocation != nil ==> inRange(resolvedLocation.StartKey, resolvedLocation.EndKey, locks[0].Key) && inRange(resolvedLocation.StartKey, resolvedLocation.EndKey, locks[len(locks)-1].Key)
+
+// GC: locks are resolved up to the transaction safe point PD granted - never above the one asked for, and lowered to PD's
+// when PD holds it back - and only after that succeeded is the GC safe point published, as exactly that value.
+//@ func (s *KVStore) GC
+//@   prop C14
+//@   may-panic
+//@   opaque-callee GetGCInternalController AdvanceTxnSafePoint resolveLocks UpdateGCSafePoint
+//@   loop 1 invariant l1: -1 <= rangeindex
+//@   at call(resolveLocks) assert bound: arg_safePoint <= expectedSafePoint && arg_safePoint <= res.NewTxnSafePoint
+//@   at call(UpdateGCSafePoint) assert after: err == nil && arg1 == txnSafePoint && arg1 <= expectedSafePoint && arg1 <= res.NewTxnSafePoint
